@@ -15,14 +15,26 @@ use stun_types::message::Message;
 
 const P: &str = "C16";
 /// universe of supported/required types (bit i of a mask selects UNIVERSE[i])
-pub const UNIVERSE: [u16; 7] = [0x8022, 0x0006, 0x0024, 0x7F00, 0xFF00, 0x0008, 0x8028];
+pub const UNIVERSE: [u16; 9] = [0x8022, 0x0006, 0x0024, 0x7F00, 0xFF00, 0x0008, 0x8028, 0x001C, 0x0025];
+const NU: usize = 9;
 
 fn alphabet() -> Vec<Tok> {
-    vec![Tok::Sw(3), Tok::User, Tok::Prio, Tok::Req(1), Tok::Opt(1), Tok::Mi, Tok::FpOk]
+    vec![Tok::Sw(3), Tok::User, Tok::Prio, Tok::Req(1), Tok::Opt(1), Tok::Mi, Tok::FpOk, Tok::Mi256(32)]
 }
 
 fn subset(mask: i64) -> Vec<u16> {
-    (0..7).filter(|i| mask >> i & 1 == 1).map(|i| UNIVERSE[i]).collect()
+    (0..NU).filter(|i| mask >> i & 1 == 1).map(|i| UNIVERSE[i]).collect()
+}
+
+/// all sub-masks of `m` (including 0 and m)
+fn submasks(m: i64) -> Vec<i64> {
+    let mut v = vec![0];
+    let mut s = m;
+    while s != 0 {
+        v.push(s);
+        s = (s - 1) & m;
+    }
+    v
 }
 
 fn dedup_keep_order(v: &[u16]) -> Vec<u16> {
@@ -49,15 +61,51 @@ pub fn run(ctx: &Ctx) -> Report {
         }
     }
     let n_msgs = msgs.len();
+    let all_mask: i64 = (1 << NU) - 1;
     let acc1 = msgs
         .par_iter()
         .enumerate()
         .fold(Acc::default, |mut acc, (i, m)| {
             acc.nontrivial += 1;
-            for sup in 0..128i64 {
-                for req in 0..128i64 {
-                    let case = Case::new("police", m.clone()).args(&[sup, req]);
-                    if i % 211 == 5 && sup == 0x13 && req == 0x22 {
+            let dec = wire::decode(m).expect("accepted above");
+            let n_attrs = dec.attrs.len();
+            // P = universe types present anywhere in the message, A = the absent ones
+            let mut pmask: i64 = 0;
+            for (b, t) in UNIVERSE.iter().enumerate() {
+                if dec.attrs.iter().any(|a| a.typ == *t) {
+                    pmask |= 1 << b;
+                }
+            }
+            let amask = all_mask & !pmask;
+            let first_absent = amask & -amask;
+            let full = n_attrs <= 2 && dec.method == 1;
+            let (sups, reqs): (Vec<i64>, Vec<i64>) = if full {
+                // every supported x required subset of the whole universe
+                ((0..=all_mask).collect(), (0..=all_mask).collect())
+            } else {
+                // every subset of the present types, combined with none / all of the absent types
+                // (supported) and none / one / all of the absent types (required): the verdict is a
+                // function of exactly these distinctions
+                let sp = submasks(pmask);
+                let mut sups = Vec::new();
+                let mut reqs = Vec::new();
+                for s in &sp {
+                    sups.push(*s);
+                    sups.push(*s | amask);
+                    reqs.push(*s);
+                    reqs.push(*s | first_absent);
+                    reqs.push(*s | amask);
+                }
+                sups.sort();
+                sups.dedup();
+                reqs.sort();
+                reqs.dedup();
+                (sups, reqs)
+            };
+            for sup in &sups {
+                for req in &reqs {
+                    let case = Case::new("police", m.clone()).args(&[*sup, *req]);
+                    if i % 211 == 5 && *sup == pmask && *req == first_absent {
                         acc.sample(case.brief());
                     }
                     judge_guarded(judge, &case, &mut acc);
@@ -78,8 +126,8 @@ pub fn run(ctx: &Ctx) -> Report {
     Report {
         acc,
         exhaustive: true,
-        rule: "request messages whose attribute lists are all sequences (duplicates included) up to the depth over {SOFTWARE, USERNAME, PRIORITY, 0x7F00, 0xFF00, MESSAGE-INTEGRITY, FINGERPRINT} that the reference decoder accepts x methods {0,1,0xFFF} x all 2^7 supported subsets x all 2^7 required subsets; comprehension_required for all 65536 types; distinct_nontrivial = request messages".into(),
-        bounds: json!({"messages": n_msgs, "depth": depth, "configurations_per_message": 16384}),
+        rule: "request messages whose attribute lists are all sequences (duplicates included) up to the depth over {SOFTWARE, USERNAME, PRIORITY, 0x7F00, 0xFF00, MESSAGE-INTEGRITY, MESSAGE-INTEGRITY-SHA256, FINGERPRINT} that the reference decoder accepts x methods {0,1,0xFFF}; type universe of 9 (those 8 + USE-CANDIDATE, never present); per message: supported = any subset of the present types + none/all of the absent ones, required = any subset of the present types + none/one/all of the absent ones; for messages of <= 2 attributes (method 1) all 2^9 x 2^9 supported x required subsets; comprehension_required for all 65536 types; distinct_nontrivial = request messages".into(),
+        bounds: json!({"messages": n_msgs, "depth": depth, "configurations_per_message": "<= 2^k * 2 * 2^k * 3 for k present universe types; 262144 for messages of <= 2 attributes"}),
         assumptions: vec!["UNKNOWN-ATTRIBUTES is compared modulo repeats (the statement does not say whether a type present twice is listed twice)".into()],
         ..Default::default()
     }
